@@ -336,8 +336,9 @@ class _Run:
         return tuple(jtu.tree_map(lambda v: 0.0 if isinstance(v, float) else np.zeros(np.shape(v), np.float32), a) for a in args)
 
 
-def _attribute(case, consts, mode, args, ftans, entry, ctx):
-    """Name what first makes ``entry`` fail: bisect over program prefixes."""
+def _attribute(case, consts, mode, args, ftans, entry, full_what, ctx):
+    """Name what first makes ``entry`` fail the way the whole program fails (same ``what``): bisect over program
+    prefixes.  Matching on ``what`` keeps two unrelated defects met by one program apart."""
     spec = case["spec"]
     nodes = spec["body"]["nodes"]
     kind = P.arg_kind(spec)
@@ -348,7 +349,7 @@ def _attribute(case, consts, mode, args, ftans, entry, ctx):
         run = _Run(P.prefix_program(spec, k), consts, mode)
         orc = run.oracle(args, ftans, entry == "grad_estimate")
         what, _ = run.check(entry, args, ftans, orc, ctx, bucket=False)
-        return what is not None
+        return what == full_what
 
     n = len(nodes)
     if n == 0 or fails(0):
@@ -363,7 +364,7 @@ def _attribute(case, consts, mode, args, ftans, entry, ctx):
     if hi == n + 1:
         return "output:" + spec["out"]["kind"], None
     nd = nodes[hi - 1]
-    return "op:" + P.op_class(nd["op"]), {"first_failing_prefix": hi, "operation": nd["op"], "inputs": nd["in"], "type": nd["ty"]}
+    return "op:" + P.node_class(nd), {"first_failing_prefix": hi, "operation": nd["op"], "inputs": nd["in"], "type": nd["ty"]}
 
 
 def _oracle_unstable(spec, consts, mode, args, ftans, entry, orc, ctx):
@@ -395,7 +396,7 @@ def run_case(case, ctx):
     ctx.count("programs")
     ctx.count("programs_mode_" + mode)
     ctx.count("programs_profile_" + case["profile"])
-    for c in sorted({P.op_class(o) for o in ops}):
+    for c in sorted(set(P.all_classes(spec["body"]))):
         ctx.count("programs_with_class_" + c)
     for o in set(ops):
         ctx.distinct("operation", o)
@@ -448,21 +449,23 @@ def run_case(case, ctx):
             if what.endswith("value") and _oracle_unstable(spec, consts, mode, args, ftans, entry, orc, ctx):
                 ctx.count("skipped_oracle_not_reproducible_jit_vs_eager")
                 continue
-            if entry not in attributed:
-                if entry == "estimate":
-                    # estimate(*args) is jvp_estimate with tangents it builds itself.  Separate "those tangents are
-                    # wrong" from "the program cannot be pushed through ADEV at all" by supplying correct zeros.
-                    what2, _ = run.check("estimate_explicit", args, ftans, orc, ctx)
-                    if what2 is None:
-                        attributed[entry] = (f"args:{kind}|own-zero-tangents", {
-                            "note": "jvp_estimate with explicit, correctly shaped zero tangents returns f(*args); only "
-                                    "the tangents estimate builds itself fail"}, None)
-                    else:
-                        c, info = _attribute(case, consts, mode, args, ftans, "estimate_explicit", ctx)
-                        attributed[entry] = (c, info, what2)
+            what2 = None
+            if entry == "estimate":
+                # estimate(*args) is jvp_estimate with tangents it builds itself.  Separate "those tangents are
+                # wrong" from "the program cannot be pushed through ADEV at all" by supplying correct zeros.
+                what2, _ = run.check("estimate_explicit", args, ftans, orc, ctx)
+            akey = (entry, what, what2)  # attribution is per failure kind: argument sets may take different branches
+            if akey not in attributed:
+                if entry == "estimate" and what2 is None:
+                    attributed[akey] = (f"args:{kind}|own-zero-tangents", {
+                        "note": "jvp_estimate with explicit, correctly shaped zero tangents returns f(*args); only "
+                                "the tangents estimate builds itself fail"}, None)
+                elif entry == "estimate":
+                    c, info = _attribute(case, consts, mode, args, ftans, "estimate_explicit", what2, ctx)
+                    attributed[akey] = (c, info, what2)
                 else:
-                    attributed[entry] = _attribute(case, consts, mode, args, ftans, entry, ctx) + (None,)
-            culprit, info, what_explicit = attributed[entry]
+                    attributed[akey] = _attribute(case, consts, mode, args, ftans, entry, what, ctx) + (None,)
+            culprit, info, what_explicit = attributed[akey]
             keywhat = what
             if entry == "estimate":
                 # one mechanism, many exception types (whichever primitive first meets the mis-shaped tangent):
